@@ -116,7 +116,9 @@ QUICK_GIDS = ("r0.9-q0.3-s9x25-t0.1-m0.8-k2-hp-json",
               "r2-q1-s40x40-t0.1-m0.8-k1.5-hn-make",
               "r0.2-q1-s9x25-t0.1-m1.5-k2-hn-json",
               "r2-q0.3-s40x40-t0-m1.5-k2-hp-new",
-              "r0.9-q0.6-s5x5-t0-m0.8-k1.5-hp-make")
+              "r0.9-q0.6-s5x5-t0-m0.8-k1.5-hp-make",
+              # thick plates with long steep legs and the short stroke: the plate-origin height exceeds the longest leg
+              "r0.9-q1-s40x40-t0.1-m1.5-k1.5-hp-json")
 
 
 def seed_geo(seed):
